@@ -20,6 +20,10 @@ vector only, so a case may say what the SAME model object (the same fit) was ask
               parameter vector times `factor`) before the observed Jacobian (an optimiser asks for the residual
               first); fits contain inverted models (`invert()`, efjc_force, twlc_force) like any other.
 Model and oracle are stateless: any dependence of the answer on such a history is a disagreement.
+Offsets (force / distance offset leaves, the parameter of subtract_independent_offset()) are the only parameters whose
+legitimate range contains 0, and "no offset" is their natural value: generators produce EXACTLY 0.0 on purpose — as a
+parameter value of a composition, as the value of a fit parameter, and as the number a data set fixes the offset to
+(`params={"DNA/d_offset": 0}`; case key "int_pins": integral constants are handed to add_data as Python ints).
 
 What the harness touches of the implementation (robustness against behaviour-preserving refactorings):
   public    : model constructors, `model(x, {name: value})` (every model-function value: observed values, histories, the
@@ -777,7 +781,7 @@ def build_fit(case):
         for di, d in enumerate(m["data"]):
             xs, ys = np.array(d["xs"], dtype=float), np.array(d["ys"], dtype=float)
             f, dd = (xs, ys) if obj.independent == "f" else (ys, xs)
-            fit[obj].add_data(f"m{mi_}d{di}", f, dd, params=dict(d["trans"]))
+            fit[obj].add_data(f"m{mi_}d{di}", f, dd, params={n: pin_value(case, v) for n, v in d["trans"]})
     return fit, models
 
 
@@ -869,6 +873,12 @@ def fit_sols(case):
             rows.append(mrows)
         _FIT_SOLS[key] = (rows, worst)
     return _FIT_SOLS[key]
+
+
+def local_targets(m, d):
+    """what each model parameter of one data set is mapped to (a fit parameter's name, or a number)"""
+    tr = dict((n, v) for n, v in d["trans"])
+    return [tr.get(n, n) for n in obj_of(m["tree"]).parameter_names]
 
 
 def fit_has_inv(case):
@@ -967,8 +977,10 @@ def close_out_of_domain(a, b, rel, floor=0.0):
 
 def rows_close(a, b, p, rel, sens_rel=1.0e-9):
     """entry-wise comparison of two Jacobian rows; an entry whose relative sensitivity |p_i J_i| is negligible
-    against the largest one of the row is compared on that scale (it is a sum of cancelling terms)"""
-    sens = max([abs(pi * v) for pi, v in zip(p, a) if math.isfinite(v) and math.isfinite(pi)] + [0.0])
+    against the largest one of the row is compared on that scale (it is a sum of cancelling terms).  The scale of a
+    parameter is max(|p_i|, 1e-2) in the numerator as in the denominator: an offset that is exactly 0 (round H) still
+    moves the answer by |J_i| per unit, it does not drop out of the row's scale"""
+    sens = max([max(abs(pi), 1e-2) * abs(v) for pi, v in zip(p, a) if math.isfinite(v) and math.isfinite(pi)] + [0.0])
     for u, v, pi in zip(a, b, p):
         floor = sens_rel * sens / max(abs(pi), 1e-2) / rel if math.isfinite(pi) else 0.0
         if not close(u, v, rel, floor):
@@ -1464,9 +1476,25 @@ def shrink_(case):
 # ------------------------------------------------------------------ generators
 
 
-def gen_params(rng, kind, name, efjc="mix"):
+ZERO_SHARE = 0.25  # share of the offset parameters (the only parameters whose legitimate range contains 0) that are exactly 0
+
+
+def snap0(v, half_width, share=ZERO_SHARE):
+    """an offset drawn uniformly from +-half_width, the innermost `share` of the interval replaced by EXACTLY 0.0: 'no
+    offset' is the natural value of an offset (the start of a fit, a calibrated data set) and the one value at which
+    `if offset:` / `offset or default` / `not value` style code takes another path.  No extra random draw (the rest of
+    the stream is unchanged)."""
+    return 0.0 if abs(v) < share * half_width else v
+
+
+def is_offset(name):
+    return str(name).endswith("_offset")
+
+
+def gen_params(rng, kind, name, efjc="mix", zero=None):
     """a parameter dictionary in the property's box: +-50 % around the defaults, twist parameters +-10 %,
-    L_c 0.3-30 um, offsets within +-0.05.  The eFJC is used in both of the box's regimes (`efjc` = "ss", "stiff" or
+    L_c 0.3-30 um, offsets within +-0.05 — a quarter of them exactly 0 (`zero` = True: every offset exactly 0, False: none).
+    The eFJC is used in both of the box's regimes (`efjc` = "ss", "stiff" or
     "mix" = either with equal chance): an ssDNA-like Kuhn length scale (0.5-2 nm) and the library's own default
     L_p = 40 nm +-50 % (a stiff chain); only with the latter does 2 f L_p / kT reach the overflow guards of the code
     (1/sinh^2 dropped from 300, coth = 1 from 500) inside the force range, i.e. only there are those branches run"""
@@ -1477,7 +1505,9 @@ def gen_params(rng, kind, name, efjc="mix"):
         elif a in ("C", "g0", "g1", "Fc"):
             v = DEFAULTS[a] * rng.uniform(0.9, 1.1)
         elif a in ("f_offset", "d_offset"):
-            v = rng.uniform(-0.05, 0.05)
+            v = snap0(rng.uniform(-0.05, 0.05), 0.05)
+            if zero is not None:
+                v = 0.0 if zero else (v or 0.01)
         elif a == "Lp" and kind == "efjc_d":
             stiff = rng.chance(0.5) if efjc == "mix" else efjc == "stiff"
             v = DEFAULTS[a] * rng.uniform(0.5, 1.5) if stiff else rng.uniform(0.5, 2.0)
@@ -1590,7 +1620,7 @@ def case_depth_top(depth, counter):
     return -1  # offsets are allowed everywhere (an offset alone is a legal model)
 
 
-def gen_tree_case(rng, depth=2, allow_inv=True, tree=None, kink=False, kT=None, efjc="mix"):
+def gen_tree_case(rng, depth=2, allow_inv=True, tree=None, kink=False, kT=None, efjc="mix", zero=None):
     indep = rng.choice(["f", "d"])
     for _ in range(20):
         t = tree or gen_tree(rng, indep, depth, [0], allow_inv)
@@ -1603,12 +1633,15 @@ def gen_tree_case(rng, depth=2, allow_inv=True, tree=None, kink=False, kT=None, 
         ls = leaves(t)
         pd = {}
         for l in ls:
-            for n, v in gen_params(rng, l[1], l[2], efjc).items():
+            for n, v in gen_params(rng, l[1], l[2], efjc, zero).items():
                 pd.setdefault(n, v)
         # offset parameters of off nodes
         def add_off(tr):
             if tr[0] == "off":
-                pd[f"{tree_name(tr[1])}/{indep_of(tr[1])}_offset"] = float(rng.uniform(-0.05, 0.05)) * (1.0 if indep_of(tr[1]) == "d" else 10.0)
+                v = snap0(float(rng.uniform(-0.05, 0.05)), 0.05) * (1.0 if indep_of(tr[1]) == "d" else 10.0)
+                if zero is not None:
+                    v = 0.0 if zero else (v or 0.01)
+                pd[f"{tree_name(tr[1])}/{indep_of(tr[1])}_offset"] = v
             for s in tr[1:]:
                 if isinstance(s, list):
                     add_off(s)
@@ -1860,6 +1893,12 @@ def gen_inv_tree(rng, counter):
     return core
 
 
+def has_offset_param(tree):
+    """the composition has a parameter that is an offset (an offset leaf, or an independent-variable offset node)"""
+    return tree[0] == "off" or (tree[0] == "base" and tree[1].startswith("offset")) or any(
+        has_offset_param(s_) for s_ in tree[1:] if isinstance(s_, list))
+
+
 def condition_patterns(n):
     """every way n data sets of one model can share simulation conditions, as restricted-growth strings (the condition
     label of each data set, labels numbered by first occurrence): n = 3 -> 000 001 010 011 012.  The code groups data
@@ -1888,7 +1927,8 @@ def same_kind_groups(pn):
 
 def gen_trans(rng, pn, params, values, tag, allow_dups=True):
     """a random parameter transformation (of one data set, or of one condition shared by several): each model
-    parameter is kept, renamed to a fresh name, renamed to a name shared with others, pinned to a number, merged
+    parameter is kept, renamed to a fresh name, renamed to a name shared with others, pinned to a number (offsets often
+    to exactly 0), merged
     with another parameter of the same physical kind (renamed ONTO that parameter's name), or — a quarter of the
     transformations of a composition — two or more parameters of the same physical kind are renamed to one common NEW
     name (of this data set / condition only, or the same name in every data set and model of the fit)"""
@@ -1915,8 +1955,12 @@ def gen_trans(rng, pn, params, values, tag, allow_dups=True):
             new = f"{n}_{tag}"
         elif c == 7:  # a name shared with other data sets
             new = f"{n}_s"
-        elif c == 8:  # pinned to a number
-            trans.append([n, float(params[n] * rng.uniform(0.9, 1.1)) if params[n] != 0 else 0.01])
+        elif c == 8:  # pinned to a number; an offset in 40 % of the cases to exactly 0 ("this data set has no offset")
+            u = rng.uniform(0.9, 1.1)
+            if is_offset(n) and u < 0.98:
+                trans.append([n, 0.0])
+            else:
+                trans.append([n, float(params[n] * u) if params[n] != 0 else 0.01])
             continue
         elif c == 9 and allow_dups:  # merged with another parameter of the same model of the same physical kind
             same = [o for o in pn if o != n and o.split("/")[-1] == n.split("/")[-1]]
@@ -1963,7 +2007,7 @@ def gen_fit_data(rng, t, pn, params, values, trans, npts, kink=False):
     return {"xs": xs, "ys": ys, "trans": [list(e) for e in trans]}
 
 
-def gen_fit_tree(rng, mi_, tree=None, inv=False):
+def gen_fit_tree(rng, mi_, tree=None, inv=False, zero=None):
     """(tree, a parameter point of it) of the mi_-th model of a fit; `inv`: a model that contains an inversion"""
     indep = rng.choice(["f", "d"])
     for _ in range(30):
@@ -1971,7 +2015,7 @@ def gen_fit_tree(rng, mi_, tree=None, inv=False):
         t = tree or (gen_inv_tree(rng, cnt) if inv else gen_tree(rng, indep, rng.choice([0, 1, 1, 2]), cnt, allow_inv=False))
         if t[0] == "base" and t[1].startswith("offset"):
             continue
-        tc = gen_tree_case(rng, tree=t)
+        tc = gen_tree_case(rng, tree=t, zero=zero)
         if tc is None:
             continue
         if not valid_everywhere(t, tc["x"], tc["params"]):
@@ -2029,7 +2073,21 @@ def gen_fit_case(rng, allow_dups=True, by_pattern=None, inv=False):
     case = {"op": "fit", "models": models, "values": values}
     if rng.chance(0.6):
         case["pre"] = gen_fit_pre(rng)
+    if rng.chance(0.5) and has_integral_pin(case):
+        case["int_pins"] = True
     return case
+
+
+def has_integral_pin(case):
+    return any(not isinstance(v, str) and float(v).is_integer() for m in case["models"] for d in m["data"] for _, v in d["trans"])
+
+
+def pin_value(case, v):
+    """a pinned value as it is handed to `add_data(params={name: value})`: a float, or — case key "int_pins" — a Python
+    int where the value is integral (`params={"DNA/d_offset": 0}`; the documented type of a constant is int)"""
+    if isinstance(v, str):
+        return v
+    return int(v) if case.get("int_pins") and float(v).is_integer() else float(v)
 
 
 # small scope of fit layouts: how the conditions of a pattern differ from each other
@@ -2064,6 +2122,11 @@ def scope_trans(pn, params, values, lab, styles, tag):
         order = {n: i for i, n in enumerate(pn)}
         return sorted(trans, key=lambda e: order[e[0]])
     n = own[-1] if lab == 0 else own[(lab - 1) % max(len(own) - 1, 1)]
+    if style == "pin0":  # an offset of the model (the lab-th one, cyclically) is fixed to exactly 0 in this condition
+        offs = [o for o in own if is_offset(o)]
+        if offs:
+            return [[offs[lab % len(offs)], 0.0]]
+        style = "pin"
     if style.endswith("Fc"):  # the critical force of the (first) twistable leaf itself is renamed / pinned
         n = [o for o in own if o.endswith("/Fc")][0]
         style = style[:-2]
@@ -2074,13 +2137,14 @@ def scope_trans(pn, params, values, lab, styles, tag):
     return [[n, new]]
 
 
-def scope_fit_case(rng, trees, patterns, styles, lengths, kink=False):
+def scope_fit_case(rng, trees, patterns, styles, lengths, kink=False, zero=None):
     """the fit whose i-th model is trees[i] with data sets sharing conditions as patterns[i] says; the data set added
-    j-th has lengths[j] points (counted over the whole fit, so that blocks of different sizes meet)"""
+    j-th has lengths[j] points (counted over the whole fit, so that blocks of different sizes meet); `zero` = True: the
+    fit is evaluated where every offset parameter of the models is exactly 0 (the start of a fit 'from no offset')"""
     models, values = [], {}
     j = 0
     for mi_, (tree, pattern) in enumerate(zip(trees, patterns)):
-        t, tc = gen_fit_tree(rng, mi_, tree=tree)
+        t, tc = gen_fit_tree(rng, mi_, tree=tree, zero=zero)
         if t is None:
             return None
         pn = list(obj_of(t).parameter_names)
@@ -2327,6 +2391,19 @@ def cases(tier, rng):
                 yield c
                 break
 
+    # every composition of the scope that has an offset parameter (offset leaf in a sum, independent-variable offset) once
+    # more at "no offset": every offset parameter exactly 0.0 (the one value inside an offset's range that is falsy / at
+    # which a shift is a no-op)
+    for t in [t_ for t_ in trees if has_offset_param(t_)]:
+        for j in range(reps):
+            for attempt in range(4):
+                c = gen_tree_case(r0.fork("zero" + repr(t) + f"{j}.{attempt}"), tree=t, zero=True)
+                if c is None or not valid_everywhere(t, c["x"], c["params"]):
+                    continue
+                c["stream"] = "small-scope"
+                yield c
+                break
+
     # ---- small scope of fit layouts: every way 1-3 data sets of a model can share conditions (in every order of
     #      appearance), x how the conditions differ, x blocks of equal / different lengths; then two-model fits
     rf = rng.fork("c13-fit-scope")
@@ -2395,6 +2472,37 @@ def cases(tier, rng):
                 c["stream"] = "small-scope"
                 if li >= n_plain and pres[(li - n_plain) % len(pres)]:
                     c["pre"] = pres[(li - n_plain) % len(pres)]
+                yield c
+                break
+
+    # fits of models with an offset (force / distance offset in a sum, independent-variable offset) in which "no offset"
+    # occurs the two ways a user says it: a data set FIXES the offset to the number 0 (params={"DNA/d_offset": 0}, as int
+    # and as float; alone, next to untransformed / renamed conditions, in every order of appearance), or the offset is a
+    # fit parameter whose value is exactly 0 where the Jacobian is asked (a fit started from no offset)
+    zero_trees = [["add", ["base", "odijk_f", "DNA"], ["base", "offset_f", "o"]], ["off", ["base", "odijk_f", "DNA"]],
+                  ["add", ["base", "odijk_d", "DNA"], ["base", "offset_d", "DNA"]]]
+    if not quick:
+        zero_trees += [["add", ["off", ["base", "odijk_d", "DNA"]], ["base", "efjc_d", "ss"]], ["off", ["base", "twlc_d", "DNA"]],
+                       ["add", ["off", ["base", "ems_f", "DNA"]], ["base", "offset_f", "o"]], ["off", ["inv", ["base", "odijk_d", "DNA"]]]]
+    zero_layouts = []
+    for t in zero_trees:
+        for pat in ([0], [0, 1], [0, 1, 0]) + (() if quick else ([0, 0, 1], [0, 1, 1], [0, 1, 2])):
+            for styles, zero in ((("pin0", "rename"), None), (("id", "pin0"), None), (("rename", "pin0"), None), (("id", "rename"), True),
+                                 (("pin0", "id"), True)):
+                if max(pat) == 0 and styles[0] == "id" and not zero:
+                    continue
+                if count_inv(t) and len(pat) > 2:
+                    continue
+                zero_layouts.append((t, pat, styles, zero))
+    for li, (t, pat, styles, zero) in enumerate(zero_layouts):
+        for attempt in range(5):
+            c = scope_fit_case(rf.fork(f"zero{li}.{attempt}"), [t], [pat], styles, [2, 1, 3] if not count_inv(t) else [2, 1, 2], zero=zero)
+            if c is not None:
+                c["stream"] = "small-scope"
+                if li % 2 and has_integral_pin(c):
+                    c["int_pins"] = True
+                if li % 3 == 2:
+                    c["pre"] = [["res", 1.0]]
                 yield c
                 break
 
@@ -2551,6 +2659,9 @@ def extra_coverage(results):
             "... with two data sets of one condition and equally many points (evaluated back to back at the same parameter values)": 0,
             "fits asked for the residual / Jacobian before the observed Jacobian": 0}
     pk = list(past)
+    zero = {"base/tree cases with an offset parameter exactly 0": 0, "fits asked for the Jacobian where a fit parameter that is an offset is exactly 0": 0,
+            "data sets that fix an offset to the number 0 (passed as float)": 0, "... passed as int": 0}
+    zk = list(zero)
     pub = {"1": 0, "0": 0, "?": 0}
     for r in results:
         c = r["case"]
@@ -2586,6 +2697,22 @@ def extra_coverage(results):
                                 seen.add(key)
                 if c.get("pre"):
                     past[pk[7]] += 1
+        except Exception:
+            pass
+        try:
+            if c["op"] == "base" and c["kind"].startswith("offset") and c["p"][0] == 0:
+                zero[zk[0]] += 1
+            if c["op"] == "tree" and any(is_offset(n) and v == 0 for n, v in c["params"].items()):
+                zero[zk[0]] += 1
+            if c["op"] == "fit":
+                if any(isinstance(v, str) and is_offset(n) and c["values"].get(v) == 0
+                       for m in c["models"] for d in m["data"] for n, v in zip(obj_of(m["tree"]).parameter_names, local_targets(m, d))):
+                    zero[zk[1]] += 1
+                for m in c["models"]:
+                    for d in m["data"]:
+                        for n, v in d["trans"]:
+                            if not isinstance(v, str) and v == 0:
+                                zero[zk[3 if c.get("int_pins") else 2]] += 1
         except Exception:
             pass
         try:
@@ -2660,6 +2787,7 @@ def extra_coverage(results):
         "efjc_overflow_guard_regimes": efjc_arg,
         "fit_layouts_two_parameters_one_fit_parameter": dup_style,
         "objects_with_a_past": past,
+        "offsets_exactly_zero": zero,
         "fit_layouts": fit_layout,
         "exhaustive": False,
     }
@@ -2686,6 +2814,13 @@ RULE = (
     "two / three models with parameters of the same physical kind, whose data sets rename them onto one of them / to "
     "one common new name / two kinds at once, alone and next to untransformed, renamed, pinned conditions) "
     "+ an out-of-domain stream (zero, negative, NaN, infinite abscissas and parameters). "
+    "Offsets exactly 0 (round H; the only parameters whose range contains 0): a quarter of all random offset values (offset "
+    "leaves, independent-variable offsets; hence also fit parameters that are offsets) are exactly 0.0, 40 % of the offsets "
+    "a random data set pins are pinned to 0 (half of those fits pass integral constants as int); small scope: every "
+    "composition of the scope with an offset parameter once more with every offset 0, and fits of odijk_force + force "
+    "offset / odijk_force(d - offset) / odijk_distance + distance offset (thorough: four more, one with an inversion) x "
+    "patterns 0, 01, 010 (thorough all of 3 data sets) x {offset fixed to 0 in the first / in the other conditions, next to "
+    "untransformed / renamed ones; every offset a fit parameter of value 0; both} x int / float constants. "
     "Objects with a past (the harness is a caller with memory; model objects are shared between cases): every composition "
     "with a numerical inversion (and three without) is asked for its Jacobian / derivative after the SAME object evaluated "
     "the model function / the Jacobian / the derivative on other abscissas — as many as in the observed call, or one "
